@@ -9,7 +9,7 @@ import vlib
 from checks import _ll
 
 PROPERTY = "C10"
-LEAN_MODULES = ["TapkeeVerif.Props.C10"]
+LEAN_MODULES = ["TapkeeVerif.Props.C10", "TapkeeVerif.Props.C10Compose"]
 LEAN_EXES = ["model_c10"]
 REQUIRED_THEOREMS = [     # every theorem of the Props module (all MANIFEST-named ones included): deleting one fails the audit
     "TapkeeVerif.C10.sample_loop_get",
@@ -60,6 +60,14 @@ REQUIRED_THEOREMS = [     # every theorem of the Props module (all MANIFEST-name
     "TapkeeVerif.C10.belowCount_sound",
     "TapkeeVerif.C10.belowCount_bounds_eigenvalues",
     "TapkeeVerif.C10.bottom_certified",
+    "TapkeeVerif.LinCompose.linTail_spec",
+    "TapkeeVerif.LinCompose.lppRow_mem",
+    "TapkeeVerif.LinCompose.lpp_end_to_end",
+    "TapkeeVerif.LinCompose.npeRow_mem",
+    "TapkeeVerif.LinCompose.fullDiagForm_symm",
+    "TapkeeVerif.LinCompose.npe_end_to_end",
+    "TapkeeVerif.LinCompose.lltsaRow_mem",
+    "TapkeeVerif.LinCompose.lltsa_end_to_end",
 ]
 EXE = "model_c10"
 
